@@ -17,7 +17,10 @@ LIST_CATS = CATS + SHADOWED                     # categories a fresh reader list
 K8 = 's3-default-prefix-shadows-full-metadata-prefixes'
 K8_MARK = 'default-prefix shadowing (K8): '
 FOREIGN = ['foreign/x', 'tape_recorder_recordingsX/full/a', 'tape_recorder_recordings', 'zzz',
-           'tape_recorder_recordingsX/a/metadata/Op/20210301/u000', 'a/full/Op/20210301/u000', 'full/x']
+           'tape_recorder_recordingsX/a/metadata/Op/20210301/u000', 'a/full/Op/20210301/u000', 'full/x',
+           # neighbours whose names only BEGIN like a cassette's folders (no '/' after full / metadata)
+           'tape_recorder_recordings/a/full_export.tar', 'tape_recorder_recordings/a/metadata_catalog/x',
+           'tape_recorder_recordings/full_export.tar', 'tape_recorder_recordings/a/b/fullx', 'tape_recorder_recordings/ab/metadata.json']
 EPOCH = datetime.datetime(1970, 1, 1)
 TIMES = [26909270, 26909290, 26909291, 26910000]   # 2021-02-28 23:50, 2021-03-01 00:10, 00:11, 12:00 (minutes since 1970)
 BUCKET = 'c15-bucket'
